@@ -313,16 +313,16 @@ HEADER = ("From Coq Require Import ZArith QArith List. Import ListNotations.\n"
 class C01(C.Check):
     prop = "C01"
     coq_dir = "C01"
-    extra_targets = ["C01/Exec.vo"]     # used by the cases files, not a dependency of Props.vo
+    extra_targets = ["C01/Exec.vo", "C01/ExecBlock.vo"]     # used by the cases files, not a dependency of Props.vo
     trusted_base = [
         "Coq 8.16.1 kernel; vm_compute for table theorems and the correspondence evaluation",
         "translator tr/c01_tables.py (literal class attributes of LinearOperator -> Gallina lists)",
-        "hand model coq/C01/Model.v of SumOperator/ChainOperator/DiagonalOperator/ScalingOperator/OperatorAdapter construction and apply (tie = correspondence)",
+        "hand model coq/C01/Model.v + Block.v of BlockDiagonalOperator/ SumOperator/ChainOperator/DiagonalOperator/ScalingOperator/OperatorAdapter construction and apply (tie = correspondence)",
         "library leaves (MatrixProductOperator, HartleyOperator, FFTOperator) enter as dense matrices per mode measured on the implementation (their own correctness is C02/C09)",
         "closeness predicate 2^-30 relative between exact Gaussian-rational model output and float64 implementation output",
     ]
     assumptions = [
-        "all operators of one expression live on domains of equal size; MultiDomain sums and BlockDiagonalOperator are covered by the direct oracle only",
+        "all operators of one expression live on domains of equal size; BlockDiagonalOperator (apply, capability, _combine_chain, _combine_sum) is modelled in coq/C01/Block.v with all keys on one 4-pixel space; MultiDomain sums with several (domain,target) groups are covered by the direct oracle only",
         "NullOperator is the reserved leaf null_id of the model; the theorems assume that this leaf is the zero map (the implementation's NullOperator.apply is compared with zero in the correspondence)",
         "exact field arithmetic in the theorems; float rounding only enters the tolerance of the correspondence",
     ]
@@ -544,7 +544,145 @@ class C01(C.Check):
             "input_distribution": kinds, "disagreements": len(bad),
             "tables_sha256": getattr(self, "sha", None),
         })
+        self.block_corr(ctx, res)
         return [self.cases[idx[b]] for b in bad]
+
+    # -----------------------------------------------------------------------------------------
+    # BlockDiagonalOperator._combine_chain / _combine_sum vs coq/C01/Block.v (bd_chain / bd_sum)
+    # -----------------------------------------------------------------------------------------
+    BKEYS = ("a", "b", "c")
+
+    def block_gen(self, ctx):
+        """Cases: (chain?, n1, n2, e1, e2); e1/e2 = per key an expression P->P or None (missing)."""
+        w = self.worlds["rg"][0]
+        rng = ctx.rng(31)
+        out = []
+        for c in ctx.corpus():
+            if c.get("cfg") == "blockcomb":
+                out.append(c["case"])
+        n = 48 if ctx.quick else 400
+        for i in range(n):
+            def side():
+                return [None if rng.integers(3) == 0 else gen_expr(rng, w, int(rng.integers(0, 3)), "P", "P", False)
+                        for _ in self.BKEYS]
+            chain = bool(i % 2)
+            out.append([chain, bool(rng.integers(2)), bool(rng.integers(2)), side(), side()])
+        return out
+
+    def block_run(self, case):
+        """Run the real BlockDiagonalOperator combination; None if a block cannot be built."""
+        import nifty.cl as ift
+        w = self.worlds["rg"][0]
+        chain, n1, n2, e1, e2 = case
+        md = ift.MultiDomain.make({k: w.P for k in self.BKEYS})
+        try:
+            with np.errstate(all="ignore"):
+                d1 = {k: w.build(e) for k, e in zip(self.BKEYS, e1) if e is not None}
+                d2 = {k: w.build(e) for k, e in zip(self.BKEYS, e2) if e is not None}
+        except ZeroDivisionError:
+            return None
+        o = {"case": case}
+        try:
+            with np.errstate(all="ignore"):
+                B1 = ift.BlockDiagonalOperator(md, d1)
+                B2 = ift.BlockDiagonalOperator(md, d2)
+                r = B1._combine_chain(B2) if chain else B1._combine_sum(B2, n1, n2)
+        except ZeroDivisionError:
+            return None
+        except Exception as ex:
+            o["build_error"] = "%s: %s" % (type(ex).__name__, str(ex)[:200])
+            return o
+        o["cap"] = int(r.capability)
+        o["pres"] = [op is not None for op in r._ops]
+        o["mats"] = {}
+        vecs = [np.eye(w.n)[j].astype(complex) for j in range(w.n)] + [EXTRA]
+        for m in MODES:
+            if not (r.capability & m):
+                continue
+            try:
+                per = []
+                for v in vecs:
+                    x = ift.MultiField.from_dict({k: ift.Field.from_raw(w.P, v.reshape(w.P.shape)) for k in self.BKEYS}, md)
+                    with contextlib.redirect_stdout(io.StringIO()), np.errstate(all="ignore"):
+                        y = r.apply(x, m)
+                    per.append([np.asarray(y[k].asnumpy().reshape(-1), dtype=complex) for k in self.BKEYS])
+                o["mats"][m] = per
+            except Exception as ex:
+                o.setdefault("raises", {})[m] = "%s: %s" % (type(ex).__name__, str(ex)[:200])
+        return o
+
+    def block_direct(self, o):
+        """The property directly: TIMES / ADJOINT_TIMES action = block-matrix product / signed sum."""
+        w, leafcaps, leafmats, _ = self.worlds["rg"]
+        chain, n1, n2, e1, e2 = o["case"]
+        if "build_error" in o:
+            return "blockdiag combine: raised " + o["build_error"]
+        if o.get("raises"):
+            return "blockdiag combine: advertised mode raises %s" % (o["raises"],)
+        I = np.eye(w.n, dtype=complex)
+        for ki in range(len(self.BKEYS)):
+            M1 = I if e1[ki] is None else ref_matrix(w, e1[ki], leafmats)
+            M2 = I if e2[ki] is None else ref_matrix(w, e2[ki], leafmats)
+            if M1 is None or M2 is None or not (np.all(np.isfinite(M1)) and np.all(np.isfinite(M2))):
+                continue
+            R = M1 @ M2 if chain else (-M1 if n1 else M1) + (-M2 if n2 else M2)
+            if chain and e1[ki] is None and e2[ki] is None and o["pres"][ki]:
+                return "blockdiag combine: key missing in both operands is present in the chain"
+            for m, Rm in ((1, R), (2, R.conj().T)):
+                if m not in o["mats"]:
+                    continue
+                got = np.array([o["mats"][m][c][ki] for c in range(w.n)]).T
+                if not np.all(np.isfinite(got)):
+                    continue
+                if np.abs(got - Rm).max() > 1e-8 * (1 + np.abs(Rm).max()):
+                    return "blockdiag combine: %s differs from the block-matrix %s in mode %d at key %s" % (
+                        "_combine_chain" if chain else "_combine_sum", "product" if chain else "sum", m, self.BKEYS[ki])
+        return None
+
+    def block_corr(self, ctx, res):
+        w, leafcaps, leafmats, leafmode = self.worlds["rg"]
+        self.block_cases = []
+        checks, idx = [], []
+        lt = C.clist([C.clist([coq_cols(np.array(per).T.tolist()) if per is not None else "[]" for per in lm])
+                      for lm in leafmode])
+        nchain = nsum = nmissing = 0
+        for case in self.block_gen(ctx):
+            o = self.block_run(case)
+            if o is None:
+                continue
+            self.block_cases.append(o)
+            if "build_error" in o:
+                continue
+            chain, n1, n2, e1, e2 = case
+            nchain += chain
+            nsum += (not chain)
+            nmissing += sum(1 for a, b in zip(e1, e2) if a is None or b is None)
+            def side(es):
+                return C.clist(["None" if e is None else "(Some %s)" % coq_expr(w, e, leafcaps) for e in es])
+            mats = []
+            for m in MODES:
+                per = o["mats"].get(m)
+                if per is None or not all(np.all(np.isfinite(col)) for v in per for col in v):
+                    mats.append("[]")
+                else:
+                    mats.append(C.clist([coq_cols(v) for v in per]))
+            checks.append("bcase %s %s %s %s %s %d%%Z %s %s" % (
+                C.cbool(chain), C.cbool(n1), C.cbool(n2), side(e1), side(e2), o["cap"],
+                C.clist([C.cbool(b) for b in o["pres"]]), C.clist(mats)))
+            idx.append(len(self.block_cases) - 1)
+        hdr = (HEADER + "Require Import NV.C01.Block NV.C01.ExecBlock.\n"
+               "Definition bcase := bd_case_ok %d%%nat %s %s.\n" % (w.n, lt, C.clist([cqc(v) for v in EXTRA])))
+        bad = C.eval_cases(self.prop, "corrblk", hdr, checks, shard=30)
+        for b in bad[:3]:
+            o = self.block_cases[idx[b]]
+            res.add_broken("correspondence", "BlockDiagonalOperator._combine_chain/_combine_sum vs coq/C01/Block.v",
+                           {"cfg": "blockcomb", "case": o["case"], "cap": o.get("cap"), "pres": o.get("pres")})
+        res.coverage.update({
+            "block_evaluations": len(checks), "block_chain_cases": int(nchain), "block_sum_cases": int(nsum),
+            "block_keys_with_missing_entry": int(nmissing), "block_disagreements": len(bad),
+            "block_distinct": len({json.dumps(o["case"]) for o in self.block_cases}),
+            "block_rule": "two BlockDiagonalOperators over {a,b,c}->RG(4); each key missing with probability 1/3, otherwise a random typed expression of depth<=2; alternately _combine_chain and _combine_sum with random signs; capability, present keys and the per-key action in every advertised mode are compared with bd_chain/bd_sum/bd_cap/bd_apply",
+        })
 
     def blockdiag_oracle(self, ctx, res):
         """BlockDiagonalOperator (multi-domain; not in the Coq model): chains, sums and differences of
@@ -822,6 +960,12 @@ class C01(C.Check):
         res.coverage["blockdiag_oracle_evaluations"] = nb
         res.coverage["multidomain_oracle_evaluations"] = self.multi_oracle(ctx, res)
         n = 0
+        for o in getattr(self, "block_cases", []):
+            f = self.block_direct(o)
+            n += 1
+            if f:
+                res.add_failing(self.signature(o, f), f, {"cfg": "blockcomb", "case": o["case"]})
+                break
         for o in self.cases:
             w, leafcaps, leafmats, _ = self.worlds[o["cfg"]]
             f = self.direct(w, o, leafcaps, leafmats)
@@ -852,6 +996,10 @@ class C01(C.Check):
         i = rp["input"]
         if i["cfg"] == "multi":
             return self.multi_failure(i["expr"]) is not None
+        if i["cfg"] == "blockcomb":
+            self.worlds = {"rg": self.world("rg")}
+            o = self.block_run(i["case"])
+            return o is not None and self.block_direct(o) is not None
         if i["cfg"] == "blockdiag":
             r = C.Result(self.prop, ctx.tier, int(i.get("seed", 0)))
             self.blockdiag_oracle(C.Ctx(self.prop, ctx.tier, int(i.get("seed", 0))), r)
